@@ -36,7 +36,7 @@ def BOUNDS(tier):
                 "empty": {"depth": 3, "alphabet": "full"}, "handles": ["ABAB"],
                 "two-handle histories": "mini, depth exactly 3, link/unlink/metadata/definition on one entity (group, tag), patterns ABA and AAB"}
     return {"rich": {"depth": 1, "alphabet": "full"}, "mini": {"depth": 2, "alphabet": "full"},
-            "mini-thin": {"depth": 3, "alphabet": "thin, last step full"},
+            
             "empty": {"depth": 4, "alphabet": "full"}, "handles": ["ABAB", "fresh"]}
 
 
@@ -64,7 +64,7 @@ def cases(tier):
             add("mini", [h for h in explorer.enumerate_histories("mini", 3, handle_cfg(ent)) if len(h) == 3], ["AB", "AAB"])
     else:
         add("rich", explorer.enumerate_histories("rich", 1, {"delete_modes": True}), ["AB", "fresh"])
-        add("mini", explorer.enumerate_histories("mini", 2, {"delete_modes": True}), ["AB", "fresh"])
+        add("mini", explorer.enumerate_histories("mini", 2, {"delete_modes": True}), ["AB"])
         add("empty", explorer.enumerate_histories("empty", 4, {}), ["AB"])
         for ent in (["blocks", "blk", "groups", "grp"], ["blocks", "blk", "tags", "tag"], ["blocks", "blk", "data_arrays", "sig"]):
             add("mini", [h for h in explorer.enumerate_histories("mini", 3, handle_cfg(ent)) if len(h) == 3], ["AB", "AAB", "ABB"])
